@@ -321,6 +321,3 @@ Proof.
     unfold nth_Z in Hq. destruct (i <? 0) eqn:E; [lia|exact Hq].
 Qed.
 
-Print Assumptions C05_cursor.
-Print Assumptions C05_track.
-Print Assumptions C05_from_lines.
